@@ -52,34 +52,6 @@ Fixpoint tx_end_views (es : list sevent) : list (view * bool) :=
   | _ :: r => tx_end_views r
   end.
 
-(* (R1) When [A;B] with A active closes on Set [B] although A and B are never
-   active together - neither when subscribing nor at any transition end *)
-Definition w1_ops := [at_call 1 (OWhen [0; 1] None)].
-Definition w1_events := hist_events (flat_schema 2) [] [] [call KAdd [0]; call KSet [1]] w1_ops.
-
-Lemma when_spurious_refuted_lemma :
-  exists (sc : schema) (calls : list api_call) (c : nat) (sts : list nat),
-    let ops := [at_call c (OWhen sts None)] in
-    let es := hist_events sc [] [] calls ops in
-    (* the condition never holds: not at the subscription, not at a transition end *)
-    (forall k v o, In (EOp k v o) es -> cond o v = false) /\
-    (forall v p, In (v, p) (tx_end_views es) -> cond (OWhen sts None) v = false) /\
-    (* yet the channel is closed at the last poll *)
-    last (polls_of ops es) [] = [true].
-Proof.
-  exists (flat_schema 2), [call KAdd [0]; call KSet [1]], 1, [0; 1].
-  cbv zeta.
-  remember (hist_events _ _ _ _ _) as es eqn:Hes. vm_compute in Hes. subst es.
-  split; [|split].
-  - intros k v o H. simpl in H.
-    repeat (destruct H as [H | H]; [try discriminate; inversion H; subst; reflexivity |]).
-    contradiction.
-  - intros v p H. vm_compute in H.
-    repeat (destruct H as [H | H]; [inversion H; subst; reflexivity |]).
-    contradiction.
-  - vm_compute. reflexivity.
-Qed.
-
 (* ---- defects that have been repaired in /repo: the same histories, now
    served (regression witnesses; the corpus replays them on the implementation) *)
 
@@ -103,32 +75,21 @@ Lemma repaired_examples_lemma :
   (* WhenQuery with a context returns a channel *)
   (forall (s : sst) (v : view) (f : qfn) (c : nat),
       ss_disposed s = false -> mem c (ss_done s) = false ->
-      snd (do_op s v (OWhenQuery f (Some c))) = RChan (ss_next s)).
+      snd (do_op s v (OWhenQuery f (Some c))) = RChan (ss_next s)) /\
+  (* When [A;B] with A active stays open across Set [B] (two-pass ProcessWhen) *)
+  last (polls_of [at_call 1 (OWhen [0; 1] None)]
+          (hist_events (flat_schema 2) [] [] [call KAdd [0]; call KSet [1]]
+             [at_call 1 (OWhen [0; 1] None)])) [] = [false] /\
+  (* a state context made at tx:applied of the transition that activates its
+     state survives that transition (ProcessStateCtx runs before the point) *)
+  last (polls_of [{| so_pos := PApplied 0; so_op := ONewStateCtx 0 |}]
+          (hist_events (flat_schema 1) [] [] [call KAdd [0]]
+             [{| so_pos := PApplied 0; so_op := ONewStateCtx 0 |}])) [] = [false].
 Proof.
   split; [vm_compute; reflexivity|]. split; [vm_compute; reflexivity|].
   split; [vm_compute; reflexivity|].
+  split; [|split; vm_compute; reflexivity].
   intros s v f c Hd Hc. unfold do_op. rewrite Hd. cbn [ctx_done]. rewrite Hc. reflexivity.
-Qed.
-
-(* (R6) a state context made between setActiveStates and ProcessStateCtx of
-   the transition that activates its state is canceled by that transition
-   although the state's tick does not change after the context was made *)
-Lemma statectx_window_refuted_lemma :
-  exists (sc : schema) (calls : list api_call) (x : nat),
-    let ops := [{| so_pos := PApplied 0; so_op := ONewStateCtx x |}] in
-    let es := hist_events sc [] [] calls ops in
-    (exists k v, In (EOp k v (ONewStateCtx x)) es /\
-       forall v' p, In (v', p) (tx_end_views es) -> tick_of (v_clock v') x = tick_of (v_clock v) x) /\
-    last (polls_of ops es) [] = [true].
-Proof.
-  exists (flat_schema 1), [call KAdd [0]], 0.
-  cbv zeta.
-  remember (hist_events _ _ _ _ _) as es eqn:Hes. vm_compute in Hes. subst es.
-  split.
-  - do 2 eexists. split; [in_list|].
-    intros v' p H. vm_compute in H.
-    repeat (destruct H as [H | H]; [inversion H; subst; reflexivity |]). contradiction.
-  - vm_compute. reflexivity.
 Qed.
 
 (* ------------------------------------------------------------------------ *)
@@ -138,23 +99,35 @@ From AMV Require Proofs.C06When Proofs.C06Keep.
 
 Definition when_iff_lemma := C06When.when_iff_lemma.
 Definition when_single_state_iff_lemma := C06When.when_single_state_iff_lemma.
-Definition when_no_lost_wakeup_lemma := C06When.when_no_lost_wakeup_lemma.
 Definition whenqueue_no_lost_lemma := C06Keep.whenqueue_no_lost_lemma'.
 Definition whenqueueends_lemma := C06Keep.whenqueueends_lemma'.
 Definition statectx_partial_lemma := C06Keep.statectx_no_lost_lemma'.
 Definition whenquery_no_lost_lemma := C06Keep.whenquery_no_lost_lemma.
 Definition never_crashed_lemma := C06Keep.run_not_crashed.
 
-Lemma when_spurious_partial_lemma : forall a0 pre k v neg sts ctx post,
+(* the two directions of when_iff *)
+Lemma when_no_lost_wakeup_lemma : forall a0 pre k v neg sts ctx post,
+  let es := pre ++ EOp k v (when_op neg sts ctx) :: post in
+  forallb plain_ev es = true -> coherent a0 es -> fresh_k k post -> known v sts = true ->
+  let a1 := acts a0 pre in
+  told_cond neg sts a1 || held_later (told_cond neg sts) a1 post = true ->
+  closed_of (run init_sst es) k = true.
+Proof.
+  intros a0 pre k v neg sts ctx post es Hp Hc Hf Hk a1 H.
+  pose proof (C06When.when_iff_lemma a0 pre k v neg sts ctx post Hp Hc Hf Hk) as E.
+  cbv zeta in E. fold es a1 in E. rewrite E. exact H.
+Qed.
+
+Lemma when_no_spurious_wakeup_lemma : forall a0 pre k v neg sts ctx post,
   let es := pre ++ EOp k v (when_op neg sts ctx) :: post in
   forallb plain_ev es = true -> coherent a0 es -> fresh_k k post -> known v sts = true ->
   let a1 := acts a0 pre in
   closed_of (run init_sst es) k = true ->
-  told_cond neg sts a1 = true \/ walked_later neg sts a1 post = true.
+  told_cond neg sts a1 || held_later (told_cond neg sts) a1 post = true.
 Proof.
-  intros a0 pre k v neg sts ctx post es Hp Hc Hf Hk a1 Hcl.
-  pose proof (C06When.when_iff_lemma a0 pre k v neg sts ctx post Hp Hc Hf Hk) as H.
-  cbv zeta in H. fold es a1 in H. rewrite Hcl in H. symmetry in H. apply orb_true_iff in H. exact H.
+  intros a0 pre k v neg sts ctx post es Hp Hc Hf Hk a1 H.
+  pose proof (C06When.when_iff_lemma a0 pre k v neg sts ctx post Hp Hc Hf Hk) as E.
+  cbv zeta in E. fold es a1 in E. rewrite <- E. exact H.
 Qed.
 
 (* ProcessStateCtx cancels nothing but the contexts of the listed states *)
@@ -188,8 +161,7 @@ Lemma when_iff_nonvacuous_lemma :
   forallb plain_ev es = true /\ coherent ex_a0 es /\ fresh_k 0 ex_post /\ known v [0; 1] = true /\
   told_cond false [0; 1] (acts ex_a0 ex_pre) = false /\
   held_later (told_cond false [0; 1]) (acts ex_a0 ex_pre) ex_post = false /\
-  walked_later false [0; 1] (acts ex_a0 ex_pre) ex_post = true /\
-  closed_of (run init_sst es) 0 = true.
+  closed_of (run init_sst es) 0 = false.
 Proof.
   cbv zeta. split; [reflexivity|]. split; [apply ex_coherent|]. split.
   { intros e [He|[]]. subst e. discriminate. }
